@@ -98,9 +98,9 @@ theorem run_dupAt {n : Nat} {s : St} {ls : List TLine} {m i j : Nat} (h : dupAt 
   · exact run_dupMethodAt h
   · exact run_dupParamAt h
 
-/-- `read` of a text whose header is accepted is the run over the body -/
+/-- `read` of a text whose header is accepted is the run over the body: the lines from the first one at indentation 0 on -/
 theorem read_none_of_run_none {n : Nat} {t : List Nat} {hd : TLine} {ls : List TLine} (ht : textLines t = hd :: ls)
-    (h : ∀ s, run n s ls = none) : read n t = none := by
+    (h : ∀ s, run n s (bodyPart ls) = none) : read n t = none := by
   cases hr : read n t with
   | none => rfl
   | some m =>
@@ -109,5 +109,125 @@ theorem read_none_of_run_none {n : Nat} {t : List Nat} {hd : TLine} {ls : List T
     simp only [List.cons.injEq] at ht'
     rw [← ht'.2, h] at hrun
     simp at hrun
+
+/-- a header section that is refused makes `read` fail -/
+theorem read_none_of_headerSec_none {n : Nat} {t : List Nat} {hd : TLine} {ls : List TLine} (ht : textLines t = hd :: ls)
+    (h : headerSec none ls = none) : read n t = none := by
+  cases hr : read n t with
+  | none => rfl
+  | some m =>
+    obtain ⟨hd', ls', s, ht', _, _, hsec, _, _, _⟩ := read_some hr
+    rw [ht] at ht'
+    simp only [List.cons.injEq] at ht'
+    rw [← ht'.2, h] at hsec
+    simp at hsec
+
+/-- whatever follows a line at indentation 0 is in the body -/
+theorem bodyPart_split_after {pre : List TLine} (rest : List TLine) (h : ∃ x ∈ pre, x.indent = 0) :
+    ∃ pre', bodyPart (pre ++ rest) = pre' ++ rest := by
+  obtain ⟨x, hx, h0⟩ := h
+  obtain ⟨a, b, rfl⟩ := List.append_of_mem hx
+  obtain ⟨a', ha'⟩ := bodyPart_split a x (b ++ rest) h0
+  refine ⟨a' ++ x :: b, ?_⟩
+  simp only [List.append_assoc, List.cons_append] at ha' ⊢
+  exact ha'
+
+/-- a failure that does not depend on the state and on what precedes it is a failure of the body run, when it starts in
+the body -/
+theorem read_none_of_tail_none {n : Nat} {t : List Nat} {hd : TLine} {pre rest : List TLine}
+    (ht : textLines t = hd :: (pre ++ rest)) (hpre : ∃ x ∈ pre, x.indent = 0)
+    (h : ∀ (pre' : List TLine) (s : St), run n s (pre' ++ rest) = none) : read n t = none := by
+  obtain ⟨pre', hp⟩ := bodyPart_split_after rest hpre
+  exact read_none_of_run_none ht (fun s => by rw [hp]; exact h pre' s)
+
+/-- `read` sees the text only through the header line, the outcome of the header section and the body -/
+theorem read_congr {n : Nat} {t t' : List Nat} {hd : TLine} {ls ls' : List TLine} (ht : textLines t = hd :: ls)
+    (ht' : textLines t' = hd :: ls') (h : headerSec none ls = headerSec none ls') : read n t = read n t' := by
+  unfold read
+  rw [ht, ht']
+  simp only [h]
+
+/-- a line at indentation 0 that is no class opens nothing: an indented line directly after it is an error, wherever it
+stands (this is what happens to a header property line that does not directly follow the header) -/
+theorem run_orphan_indent {n : Nat} {s : St} {pre post : List TLine} {l0 l : TLine} (h0 : l0.indent = 0)
+    (hf : l0.first ≠ C_) (hl : 1 ≤ l.indent) : run n s (pre ++ l0 :: l :: post) = none := by
+  cases hr : run n s (pre ++ l0 :: l :: post) with
+  | none => rfl
+  | some s' =>
+    obtain ⟨m, _, h2⟩ := run_append_some hr
+    obtain ⟨m2, h3, h4⟩ := run_cons_some h2
+    obtain ⟨m3, h5, _⟩ := run_cons_some h4
+    have hd : m2.depth = 0 := by
+      unfold step at h3
+      simp only [h0, Nat.not_lt_zero, if_false, hf, Option.some.injEq] at h3
+      rw [← h3]
+    unfold step at h5
+    rw [if_pos (by omega)] at h5
+    simp at h5
+
+theorem read_none_of_headerBad {n : Nat} {t : List Nat} (h : headerBad (textLines t).tail = true) : read n t = none := by
+  cases hr : read n t with
+  | none => rfl
+  | some m =>
+    obtain ⟨hd, ls, s, ht, _, _, hsec, _, _, _⟩ := read_some hr
+    rw [ht, List.tail_cons] at h
+    have h1 := headerSec_indents ls none _ _ hsec
+    have h2 := (headerSec_none_doc hsec).2
+    simp only [headerBad, Bool.or_eq_true, List.any_eq_true, decide_eq_true_eq] at h
+    rcases h with ⟨l, hl, h2l⟩ | h
+    · have := h1 l hl
+      omega
+    · have : docN m.doc ≤ 1 := by unfold docN; split <;> omega
+      omega
+
+/-- decidable form of `headerSec_ignores` (the oracle's domain): deleting an unknown property line of the header section
+changes nothing -/
+theorem read_eq_of_ignoredAt {n : Nat} {t t' : List Nat} {k : Nat}
+    (hh : (textLines t).head? = (textLines t').head?) (h : ignoredAt (textLines t).tail (textLines t').tail k = true) :
+    read n t = read n t' := by
+  cases ht : textLines t with
+  | nil => simp [ignoredAt, ht] at h
+  | cons hd ls =>
+    rw [ht, List.tail_cons] at h
+    unfold ignoredAt at h
+    split at h
+    · rename_i l hl
+      simp only [Bool.and_eq_true, List.all_eq_true, bne_iff_ne, ne_eq, beq_iff_eq] at h
+      obtain ⟨⟨⟨hpre, h1⟩, hf⟩, heq⟩ := h
+      cases ht' : textLines t' with
+      | nil => rw [ht, ht'] at hh; simp at hh
+      | cons hd' ls' =>
+        rw [ht, ht'] at hh
+        simp only [List.head?_cons, Option.some.injEq] at hh
+        subst hh
+        rw [ht', List.tail_cons] at heq
+        have hsplit : ls = ls.take k ++ l :: ls.drop (k + 1) := by
+          conv => lhs; rw [← List.take_append_drop k ls, drop_of_getElem? hl]
+        have herase : ls.eraseIdx k = ls.take k ++ ls.drop (k + 1) := List.eraseIdx_eq_take_drop_succ ls k
+        refine read_congr ht ht' ?_
+        rw [heq, herase]
+        conv => lhs; rw [hsplit]
+        exact headerSec_ignores _ none l _ hpre h1 hf
+    · simp at h
+
+/-- decidable form of `run_orphan_indent` -/
+theorem read_none_of_orphanAt {n : Nat} {t : List Nat} {k : Nat} (h : orphanAt (textLines t).tail k = true) :
+    read n t = none := by
+  cases ht : textLines t with
+  | nil => simp [Tiny.read, ht]
+  | cons hd ls =>
+    rw [ht, List.tail_cons] at h
+    unfold orphanAt at h
+    split at h
+    · rename_i l0 l hl0 hl
+      simp only [Bool.and_eq_true, beq_iff_eq, bne_iff_ne, ne_eq, decide_eq_true_eq] at h
+      obtain ⟨⟨h0, hf⟩, h1⟩ := h
+      have hsplit : ls = ls.take k ++ l0 :: l :: ls.drop (k + 2) := by
+        conv => lhs; rw [← List.take_append_drop k ls, drop_of_getElem? hl0, drop_of_getElem? hl]
+      obtain ⟨pre', hp⟩ := bodyPart_split (ls.take k) l0 (l :: ls.drop (k + 2)) h0
+      refine read_none_of_run_none ht (fun s => ?_)
+      rw [hsplit, hp]
+      exact run_orphan_indent h0 hf h1
+    · simp at h
 
 end Tiny
